@@ -56,8 +56,11 @@ def extract(repo):
     if not re.search(r"EvActSelectRow\(row\) => \{\s*self\.act_select_screen_row\(\*row\);\s*\}", handler):
         raise ValueError("EvActSelectRow arm has an unknown shape")
     # the height floor: fn known_height(&self) -> usize { max(self.height.load(..), N) }
-    m = re.search(r"fn known_height\(&self\) -> usize \{\s*max\(self\.height\.load\(Ordering::Relaxed\), (\d+)\)\s*\}", src)
-    floor = int(m.group(1)) if m else 0
+    m = re.search(r"fn known_height\(&self\) -> usize \{\s*(?:max\(self\.height\.load\(Ordering::Relaxed\), (\d+)\)|"
+                  r"self\.height\.load\(Ordering::Relaxed\)\.max\((\d+)\))\s*\}", src)
+    if "fn known_height" in src and not m:
+        raise ValueError("known_height() has a shape this translator does not understand")
+    floor = int(m.group(1) or m.group(2)) if m else 0
     # reads of the stored height that bypass known_height(): everything outside that helper and
     # outside the feature-gated verification accessors
     body = src.replace(m.group(0), "") if m else src
